@@ -22,6 +22,16 @@ def main():
     if fn.endswith('.py') and not fn.endswith('_test.py'):
       trees[fn[:-3]] = ast.parse(open(os.path.join(pkg, fn)).read())
   inv = inline.make_inventory(trees)
+  # the loops of the reference are part of its shape: they must be known
+  # before the second phase normalises the reference itself (otherwise its
+  # own loops over literal displays would be unrolled)
+  from tflsa.model import canonicalise
+  import copy
+  for mname, tree in trees.items():
+    ctree = canonicalise(copy.deepcopy(tree))
+    for q, (f, _, _) in inline.function_table(ctree).items():
+      if q in inv.get(mname, {}):
+        inv[mname][q]['loops'] = inline.loop_targets(f)
   head = subprocess.run(['git', '-C', repo, 'rev-parse', 'HEAD'],
                         stdout=subprocess.PIPE, text=True).stdout.strip()
   inv = {'__reference__': {'commit': head}, **inv}
@@ -38,6 +48,7 @@ def main():
         inv[mname][q]['flat'] = inline.flat_form(f)
         inv[mname][q]['loops'] = inline.loop_targets(f)
         inv[mname][q]['defs'] = inline.def_shapes(f)
+        inv[mname][q]['comps'] = inline.comp_targets(f)
   json.dump(inv, open(out, 'w'), indent=0, sort_keys=True)
   inline._INV = None
   print('functions: %d' % sum(len([q for q in v if not q.startswith('__')])
